@@ -106,12 +106,12 @@ def call_spec_fn(self, name, e, st):
             s.env[n] = Val(t, z)
             s.env["$q_" + n] = Val(t, z)
         npc = len(st.pc)
-        saved_env = getattr(self, "_cur_spec_env", ())
-        self._cur_spec_env = tuple(s.env)
+        saved_b = getattr(self, "_cur_bound_ids", None)
+        self._cur_bound_ids = set(saved_b or ()) | {b.get_id() for b in bound}
         try:
             body, s2 = self.ev1(lam.body, s)
         finally:
-            self._cur_spec_env = saved_env
+            self._cur_bound_ids = saved_b
         bz = self.truth(body, s2)
         extra = list(s2.pc[npc:])
         del st.pc[npc:]
